@@ -1,6 +1,7 @@
 import Mathlib.Algebra.Order.Group.Abs
 import Mathlib.Algebra.Order.Group.Int
 import TapkeeVerif.Proofs.KnnBrute
+import TapkeeVerif.Proofs.KnnRelabel
 import TapkeeVerif.Proofs.KnnVpBuild
 import TapkeeVerif.Proofs.KnnCover
 import TapkeeVerif.Proofs.CoverPrune
@@ -47,6 +48,29 @@ theorem brute_exact {δ : α → α → K} {pts : List α} {k : Nat} {i : α} {l
 /-- the executable model instance (stable sort for `nth_element`) is one of the admissible outcomes -/
 theorem bruteKnn_admissible (δ : α → α → K) (pts : List α) (k : Nat) (i : α) :
     BruteOut δ pts k i (bruteKnn δ pts k i) := bruteKnn_out δ pts k i
+
+/-- **relabelling invariance of the specification**: the range handed to a search may carry any distinct elements
+    (`f` : sample ↦ element of the range, the user callback translates an element back through `g`, `g (f a) = a`) —
+    a list is the exact k-NN list for the relabelled callback on the relabelled range iff its preimage is for the
+    original one.  Hence every exactness theorem of this file transfers to non-identity ranges (`*iter ≠ position`),
+    for all three methods. -/
+theorem isExactKnn_relabel {β : Type} [DecidableEq β] {δ : α → α → K} {f : α → β} {g : β → α} (hg : ∀ a, g (f a) = a)
+    (pts : List α) (k : Nat) (i : α) (l : List α) :
+    IsExactKnn (fun a b => δ (g a) (g b)) (pts.map f) k (f i) (l.map f) ↔ IsExactKnn δ pts k i l :=
+  isExactKnn_relabel' hg pts k i l
+
+/-- **relabelling invariance of the brute-force model**: on the relabelled range with the relabelled callback it
+    returns the image of the list it returns on the original one -/
+theorem bruteKnn_relabel {β : Type} [DecidableEq β] {δ : α → α → K} {f : α → β} {g : β → α} (hg : ∀ a, g (f a) = a)
+    (pts : List α) (k : Nat) (i : α) :
+    bruteKnn (fun a b => δ (g a) (g b)) (pts.map f) k (f i) = (bruteKnn δ pts k i).map f :=
+  bruteKnn_relabel' hg pts k i
+
+/-- non-vacuity: elements `10 + 3·sample` (no position is an element of the range), the callback translating back -/
+example (δ : Nat → Nat → K) :
+    bruteKnn (fun a b => δ ((a - 10) / 3) ((b - 10) / 3)) ([0, 1, 2, 5].map fun s => 10 + 3 * s) 2 (10 + 3 * 1) =
+      (bruteKnn δ [0, 1, 2, 5] 2 1).map fun s => 10 + 3 * s :=
+  bruteKnn_relabel (f := fun s => 10 + 3 * s) (g := fun e => (e - 10) / 3) (fun a => by omega) _ _ _
 
 /-- Why the repair `popIfLonger` (F-KNN-DUP) is needed: on three coinciding samples there is an admissible
     `nth_element` outcome for which the selection loop alone returns `k + 1 = 2` neighbours for `k = 1`. -/
